@@ -476,6 +476,12 @@ func genMoney() {
 	value(asetypes.MONEY, 4, vDec(20, 4, big.NewInt(1)), "offdomain;money-length")
 	value(asetypes.SHORTMONEY, 8, vDec(20, 4, big.NewInt(1)), "offdomain;money-length")
 	value(asetypes.MONEY, 8, vDec(20, 4, nil), "offdomain;decimal-without-value")
+	for _, n := range []int{0, 4, 8} {
+		value(asetypes.MONEYN, n, vDec(0, 0, nil), "null;MONEYN;decimal-without-value")
+		value(asetypes.MONEYN, n, vDec(20, 4, nil), "null;MONEYN;decimal-without-value")
+		value(asetypes.DECN, n, vDec(0, 0, nil), "null;DECN;decimal-without-value")
+		value(asetypes.NUMN, n, vDec(18, 0, nil), "null;NUMN;decimal-without-value")
+	}
 	value(asetypes.MONEY, 8, vInt(iI64, 5), "offdomain;wrongtype")
 	value(asetypes.MONEY, -1, vDec(20, 4, big.NewInt(1)), "offdomain;negative-length")
 	for i := 0; i < 200; i++ {
@@ -531,7 +537,7 @@ func genDecimals() {
 	}
 	// off the domain: beyond 38 digits (still encodes), Decimal without value, wrong type
 	value(asetypes.DECN, 0, vDec(38, 0, new(big.Int).Lsh(one, 200)), "offdomain;decimal-beyond-38-digits")
-	value(asetypes.DECN, 0, vDec(38, 0, nil), "offdomain;decimal-without-value")
+	value(asetypes.DECN, 0, vDec(38, 0, nil), "null;DECN;decimal-without-value")
 	value(asetypes.NUMN, 0, vStr([]byte("1.5")), "offdomain;wrongtype")
 	for i := 0; i < 300; i++ {
 		bs := rng.Bytes(rng.Range(0, 18))
